@@ -499,7 +499,8 @@ func c08ErrorPaired(c *Ctx, reach map[*ssa.Function]bool) {
 					if st == nilOnlyWithError && ei >= 0 {
 						guarded = w.requires(fn, u, errNil(call), true)
 					}
-					if !guarded {
+					typed := w.nilIsTyped(callee, ri)
+					if !guarded && !typed {
 						nilT := func(a Atom) bool { return a.Kind == "nil" && strip(a.X) == strip(val) }
 						guarded = w.requires(fn, u, nilT, false)
 					}
@@ -515,6 +516,9 @@ func c08ErrorPaired(c *Ctx, reach map[*ssa.Function]bool) {
 					how := "it is returned as nil together with an error"
 					if st == nilPossiblyWithNilError {
 						how = "it can be nil even when no error is reported"
+					}
+					if typed {
+						how += "; the nil is a nil pointer wrapped in the interface result, which a `!= nil` test on the interface does not detect: only the error tells"
 					}
 					c.check(guarded, rule, key, w.ipos(u), "result of "+w.fname(callee)+" is used only where it cannot be nil", fmt.Sprintf("result %d of %s can be nil (%s) and is dereferenced at %s without that having been excluded: nil pointer dereference in network-reachable code", ri, w.fname(callee), how, w.ipos(u)))
 				}
@@ -638,6 +642,8 @@ func c08AllocBound(c *Ctx) {
 	w := c.w
 	g := w.Flow()
 	rule := "alloc-bound"
+	ruleDatagramBuffer(c, "discard")
+	c10ResultAfterError(c, "discard", "ParseMessage")
 	reach := w.networkReachable()
 	n := 0
 	for _, fn := range w.All {
@@ -1127,4 +1133,73 @@ func (w *World) nilOnlyOnLocalAddrFailure(fn *ssa.Function) bool {
 		}
 	}
 	return true
+}
+
+// nilIsTyped: result i of fn is an interface and the nil it may carry is a nil POINTER converted to that interface
+// (return p, err with p a possibly-nil *T): the interface value itself is then non-nil and `!= nil` tests nothing.
+func (w *World) nilIsTyped(fn *ssa.Function, i int) bool {
+	res := fn.Signature.Results()
+	if i >= res.Len() {
+		return false
+	}
+	if _, isIface := res.At(i).Type().Underlying().(*types.Interface); !isIface {
+		return false
+	}
+	for _, r := range returnsUnder(fn, nil) {
+		if i >= len(r.Results) {
+			continue
+		}
+		for _, v := range phiLeaves(r.Results[i]) {
+			_ = v
+		}
+		// look at the unstripped leaves: phiLeaves strips conversions, so walk the phi by hand
+		var walk func(v ssa.Value, d int) bool
+		walk = func(v ssa.Value, d int) bool {
+			if d > 6 {
+				return false
+			}
+			switch x := v.(type) {
+			case *ssa.Phi:
+				for _, e := range x.Edges {
+					if walk(e, d+1) {
+						return true
+					}
+				}
+			case *ssa.MakeInterface:
+				if _, isPtr := x.X.Type().Underlying().(*types.Pointer); isPtr {
+					inner := strip(x.X)
+					if isNilConst(inner) {
+						return true
+					}
+					if kc, j := callOfResult(inner); kc != nil {
+						if callee := kc.Common().StaticCallee(); callee != nil && w.isMain(callee) && w.nilStatus(callee, j, map[string]bool{}) != nilNever {
+							return true
+						}
+					}
+					if ph, ok := inner.(*ssa.Phi); ok {
+						for _, e := range phiLeaves(ph) {
+							if isNilConst(e) {
+								return true
+							}
+							if kc, j := callOfResult(e); kc != nil {
+								if callee := kc.Common().StaticCallee(); callee != nil && w.isMain(callee) && w.nilStatus(callee, j, map[string]bool{}) != nilNever {
+									return true
+								}
+							}
+						}
+					}
+				}
+			case *ssa.UnOp:
+				// defer-spilled result cell
+				if s := strip(x); s != ssa.Value(x) {
+					return walk(s, d+1)
+				}
+			}
+			return false
+		}
+		if walk(r.Results[i], 0) {
+			return true
+		}
+	}
+	return false
 }
